@@ -147,8 +147,8 @@ func vpW_C01_twin() {
 	vpAssert("twin", false)
 }
 
-// thorough: every field populated at once
-func vpT_C01_all() {
+// every field populated at once (a property whose writing or reading depends on another one being set)
+func vpH_C01_all() {
 	ti := vpChoice(len(vpTypeNames))
 	fields := vpFieldsOf(ti)
 	x := vpNew(ti)
